@@ -1061,4 +1061,58 @@ theorem iter_sim (hfn : P.n ≤ fuel) (hfr : P.row.length ≤ fuel) (hea : ea = 
     · simp [h, hv]
 end Iter
 
+
+theorem forLoop_err (P : Params) : ∀ (cnt i : Nat) (s : St), s.err.isSome = true → forLoop P cnt i s = s := by
+  intro cnt
+  induction cnt with
+  | zero => intro i s _; rfl
+  | succ cnt ih =>
+    intro i s h
+    simp only [forLoop]
+    rw [headStep_err P i s h, whileLoop_err P i s h, isoStep_err P i s h]
+    exact ih (i + 1) s h
+
+section For
+variable (P : Params) (oracle : Nat → Bool) (fuel : Nat) (ea : Int)
+
+/-- the main loop ≙ `forLoop` -/
+theorem for_sim (hfn : P.n ≤ fuel) (hfr : P.row.length ≤ fuel) (hea : ea = if P.eightAbove then 1 else 0) :
+    ∀ (cnt f i : Nat) (k : ThetaSt OSt) (m : St), Rel P k m → k.i = (i : Int) → Qs m →
+    (i : Int) + (cnt : Int) = P.m → cnt ≤ f → (forLoop P cnt i m).err = none →
+    Rel P
+      (whileF (ThetaSt.live obs)
+        (fun s => match theta_chain_comput_strategy_loop3_cond obs P.row oracle fuel P.n ea s with | .ok b => b | .error _ => true)
+        (fun s => match theta_chain_comput_strategy_loop3_cond obs P.row oracle fuel P.n ea s with
+          | .ok _ => theta_chain_comput_strategy_loop3_body obs P.row oracle fuel P.n ea s | .error f => s.fail f)
+        (fun s => s.fail .fuel) f k)
+      (forLoop P cnt i m) ∧ Qs (forLoop P cnt i m) := by
+  intro cnt
+  induction cnt with
+  | zero =>
+    intro f i k m R hki hqs hi _ _
+    have hm : P.m = (P.n : Int) - 1 - (P.adj : Int) := rfl
+    rw [whileF_stop _ _ _ _ _ _ (by simp [theta_chain_comput_strategy_loop3_cond, hki, R.ad]; omega)]
+    exact ⟨R, hqs⟩
+  | succ cnt ih =>
+    intro f i k m R hki hqs hi hf he
+    have hm : P.m = (P.n : Int) - 1 - (P.adj : Int) := rfl
+    obtain ⟨f', rfl⟩ : ∃ f', f = f' + 1 := ⟨f - 1, by omega⟩
+    have hlive : ThetaSt.live obs k = true := by simp [ThetaSt.live, obs, R.kf, R.kb]
+    rw [whileF_step _ _ _ _ _ _ (by simp [theta_chain_comput_strategy_loop3_cond, hki, R.ad, hlive]; omega)]
+    have hbody : (match theta_chain_comput_strategy_loop3_cond obs P.row oracle fuel P.n ea k with
+        | .ok _ => theta_chain_comput_strategy_loop3_body obs P.row oracle fuel P.n ea k | .error f => k.fail f) =
+        theta_chain_comput_strategy_loop3_body obs P.row oracle fuel P.n ea k := by
+      simp [theta_chain_comput_strategy_loop3_cond]
+    rw [hbody]
+    simp only [forLoop] at he ⊢
+    have he1 : (isoStep P i (whileLoop P i (headStep P i m))).err = none := by
+      cases hq : (isoStep P i (whileLoop P i (headStep P i m))).err with
+      | none => rfl
+      | some e =>
+        rw [forLoop_err P cnt (i + 1) _ (by simp [hq])] at he
+        simp [hq] at he
+    obtain ⟨R', hi', hqs'⟩ := iter_sim P oracle fuel ea hfn hfr hea i (by omega) k m R hki hqs he1
+    exact ih f' (i + 1) _ _ R' (by rw [hi']; push_cast; rfl) hqs' (by push_cast; omega) (by omega) he
+end For
+
 end SqiProofs.SkelThetaSim
